@@ -27,6 +27,10 @@ def field(rng, at, kind, amp):
         raw = {j: A * (z - c) + B * np.conj(z - c) + t for j, z in zs.items()}
         m = max(abs(v) for v in raw.values())
         d = {j: v * (amp * 0.95 / m) for j, v in raw.items()}
+    elif kind == "drift":
+        # the whole tissue drifts (plus a little internal motion): large displacements, unchanged shape
+        t = amp * 0.9 * np.exp(1j * rng.uniform(0, 2 * np.pi))
+        d = {j: t + 0.05 * amp * complex(*rng.normal(0, 1, 2)) for j in zs}
     elif kind == "flow":
         ext = at.bbox_diam()
         kx, ky = rng.uniform(0.5, 2.5, 2) * 2 * np.pi / ext
@@ -73,13 +77,16 @@ def motion_bounds(at0, at1, shift0=0j, shift1=0j):
     return q, bool(ok)
 
 
-def amplitude(at, frac=0.6):
-    """largest displacement that keeps the C12 bounds with a margin"""
+def amplitude(at, frac=0.6, wide=False):
+    """largest displacement that keeps the C12 bounds with a margin; wide=True goes up to 85 % of the bounds themselves
+    (half the smallest junction spacing, 8 % of the extent)"""
     e = end_points(at)
     z = np.array([at.J[j] for j in e])
     d = np.abs(z[:, None] - z[None, :])
     d[np.diag_indices(len(z))] = np.inf
     ext = max(z.real.max() - z.real.min(), z.imag.max() - z.imag.min())
+    if wide:
+        return 0.85 * min(0.5 * d.min(), 0.08 * ext)
     return frac * min(0.25 * d.min(), 0.04 * ext)
 
 
